@@ -139,6 +139,7 @@ type Profile struct {
 	Order      string // "" random | asc | desc | alt : insertion order for balance profiles
 	ReadsW     int    // weight of single random reads
 	NoLvfo     bool
+	WPrune     bool // deletions are recorded (wprune): physical writes and flush positions
 	ToggleFast bool // every reopen independently chooses fast index on/off
 	Touch      bool // sprinkle read-only calls that may memoise (proofs, hashes)
 }
@@ -271,7 +272,7 @@ func obs(r *rand.Rand, g *keyGen, t *track, full bool, ops *[][]string) {
 		*ops = append(*ops, []string{"r", "v" + i64(t.first()-1), "size"})
 	}
 	bookkeeping(r, g, t, ops)
-	*ops = append(*ops, []string{"audit", "nodes"}, []string{"audit", "fast"}, []string{"audit", "raw"})
+	*ops = append(*ops, []string{"audit", "nodes"}, []string{"audit", "phys"}, []string{"audit", "fast"}, []string{"audit", "raw"})
 }
 
 // genM1 generates one MutableTree history.
@@ -288,6 +289,10 @@ func genM1(r *rand.Rand, p Profile, id string) Case {
 		c.Params = []string{"iv=-"}
 	}
 	t := &track{iv: iv}
+	pruneTok := "prune"
+	if p.WPrune {
+		pruneTok = "wprune"
+	}
 	nops := p.MinOps + r.Intn(p.MaxOps-p.MinOps+1)
 	var ops [][]string
 	muts := 0
@@ -391,7 +396,7 @@ func genM1(r *rand.Rand, p Profile, id string) Case {
 			if n < 0 {
 				continue
 			}
-			ops = append(ops, []string{"prune", i64(n)})
+			ops = append(ops, []string{pruneTok, i64(n)})
 			if n < t.latest() {
 				var keep []int64
 				for _, v := range t.versions {
@@ -652,7 +657,7 @@ func genM1(r *rand.Rand, p Profile, id string) Case {
 				a = iv
 			}
 			t.versions = append(t.versions, a, a+1)
-			ops = append(ops, []string{"prune", i64(a)})
+			ops = append(ops, []string{pruneTok, i64(a)})
 			ops = append(ops, []string{"set", hx(g.key()), hx(g.value())}, []string{"save"})
 			t.versions = append(t.versions, a+2)
 			ops = append(ops, []string{"changes", i64(a + 1), i64(a + 3)})
@@ -660,7 +665,7 @@ func genM1(r *rand.Rand, p Profile, id string) Case {
 				ops = append(ops, []string{"rm", hx(g.key())}, []string{"set", hx(g.key()), hx(g.value())}, []string{"save"})
 				t.versions = append(t.versions, a+3)
 			}
-			ops = append(ops, []string{"prune", i64(a + 1)})
+			ops = append(ops, []string{pruneTok, i64(a + 1)})
 			var keep []int64
 			for _, v := range t.versions {
 				if v > a+1 {
